@@ -232,6 +232,7 @@ func init() {
 
 		// ---- errors ----
 		"errors.Is": ext1(extErrorsIs),
+		"errors.As": ext1(extErrorsAs),
 
 		// ---- fmt ----
 		"fmt.Sprintf": ext1(func(fr *frame, a []value) value { return fmtSprintf(fr, a[0], a[1].([]value)) }),
@@ -529,6 +530,48 @@ func extErrorsIs(fr *frame, a []value) value {
 			}
 		}
 		// Unwrap() error
+		m := findMethod(i, err.t, "Unwrap")
+		if m == nil || m.Signature.Results().Len() != 1 {
+			return false
+		}
+		next, ok := call(i, fr, token.NoPos, m, []value{err.v}).(iface)
+		if !ok {
+			return false
+		}
+		err = next
+	}
+	return false
+}
+
+// extErrorsAs implements errors.As on the interpreter's values: target is a
+// non-nil pointer to a variable of type T; the first error of the Unwrap chain
+// that is assignable to T is stored there. (Custom As methods are not consulted.)
+func extErrorsAs(fr *frame, a []value) value {
+	err, target := a[0].(iface), a[1].(iface)
+	i := fr.i
+	pt, ok := target.t.(*types.Pointer)
+	cell, okc := target.v.(*value)
+	if target.t == nil || !ok || !okc || cell == nil {
+		panic(targetPanic{"errors: target must be a non-nil pointer"})
+	}
+	T := pt.Elem()
+	_, tIsIface := T.Underlying().(*types.Interface)
+	for depth := 0; depth < 20; depth++ {
+		if err.t == nil {
+			return false
+		}
+		if tIsIface {
+			if types.Implements(err.t, T.Underlying().(*types.Interface)) {
+				*cell = err
+				return true
+			}
+		} else if types.Identical(err.t, T) {
+			store(T, cell, err.v)
+			return true
+		}
+		if m := findMethod(i, err.t, "As"); m != nil {
+			unsupported("errors.As on an error with an As method")
+		}
 		m := findMethod(i, err.t, "Unwrap")
 		if m == nil || m.Signature.Results().Len() != 1 {
 			return false
